@@ -6,6 +6,7 @@ import (
 	"fmt"
 	"os"
 	"os/exec"
+	"runtime"
 	"sort"
 	"strconv"
 	"strings"
@@ -31,11 +32,21 @@ func init() { props["C05"] = runC05 }
 
 const (
 	c05RD       = 50 * time.Microsecond
-	c05Slack    = 100*time.Millisecond + 3*c05RD // declared slack: measured, not proved
-	c05Early    = 2 * time.Millisecond           // allowance on the lower bound
+	c05Early    = 2 * time.Millisecond // allowance on the lower bound
 	c05Watchdog = 6 * time.Second
 	c05Long     = 2 * time.Second
 )
+
+// c05Slack is the declared slack on the upper bound (measured, not proved): 100 ms on a host with
+// eight or more CPUs, proportionally more on a smaller one (a single CPU runs the client, the read
+// goroutine, the simulated device and the timers in turn).
+var c05Slack = func() time.Duration {
+	f := 1
+	if n := runtime.NumCPU(); n < 8 {
+		f = (8 + n - 1) / n
+	}
+	return time.Duration(f)*100*time.Millisecond + 3*c05RD
+}()
 
 // groups (kind, variant) in which confirmed hangs were seen; after two the sweep stops (verdict clear)
 var c05hangGroups int
